@@ -91,37 +91,24 @@ def _spectral_inline(rep, f: Func):
         rep.undecided("S1", f, "decomposition", "expected one eigen-decomposition")
         return
     dec, routine, w, V = decs[0]
-    from ..matexpr import product, fmt, is_adjoint_of
-    recon = [n for n in own_nodes(f.node) if isinstance(n, ast.BinOp) and isinstance(n.op, ast.MatMult)
-             and not isinstance(getattr(n, "_parent", None), ast.BinOp) and any(isinstance(x, ast.Name) and x.id == V for x in ast.walk(n))]
-    if len(recon) != 1:
-        rep.undecided("S1", f, "reconstruction", "expected one product with the eigenvector matrix")
-        return
-    p = product(recon[0])
-    shape_ok = len(p) == 3 and p[0] == (V, False, False) and is_adjoint_of(p[0], p[2]) and p[1][0] in ("np.diag(%s)" % w,) and not p[1][1] and not p[1][2]
-    if not shape_ok:
-        # D may be a named diag
-        d = {unparse(n.targets[0]): unparse(n.value) for n in own_nodes(f.node) if isinstance(n, ast.Assign) and isinstance(n.targets[0], ast.Name)}
-        shape_ok = len(p) == 3 and p[0] == (V, False, False) and is_adjoint_of(p[0], p[2]) and d.get(p[1][0]) == "np.diag(%s)" % w
-    if not shape_ok:
-        rep.violation("S1", f, recon[0], "reconstruction is %s, expected V · diag(w) · V†" % fmt(p), node=recon[0])
-    elif routine == "eig":
-        rep.violation("S1", f, recon[0], "reconstruction %s uses V† as the inverse of the eigenvector matrix, but the decomposition is "
-                                         "np.linalg.eig: for repeated eigenvalues its eigenvectors are not orthonormal, so V† is not V^-1 (the "
-                                         "dissipator matrix of a generator in a Hermitian basis is Hermitian: use eigh)" % fmt(p), node=recon[0])
-    else:
-        rep.holds("S1", f, recon[0], "%s with eigh" % fmt(p), node=recon[0])
-    # clipping
-    clip = False
-    for n in own_nodes(f.node):
-        if isinstance(n, ast.If) and isinstance(n.test, ast.Compare) and unparse(n.test.left).startswith(w + "[") and is_num(n.test.comparators[0], 0) \
-                and isinstance(n.test.ops[0], (ast.Lt, ast.LtE)):
-            clip = any(isinstance(s, ast.Assign) and unparse(s.targets[0]) == unparse(n.test.left) and is_num(s.value, 0) for s in n.body)
-        if isinstance(n, ast.Assign) and isinstance(n.targets[0], ast.Subscript) and isinstance(n.targets[0].slice, ast.Compare):
-            m = n.targets[0].slice
-            if is_num(m.comparators[0], 0) and isinstance(m.ops[0], (ast.Lt, ast.LtE)) and is_num(n.value, 0):
-                clip = True
-    rep.check(clip, "S1", f, "clipping", "negative eigenvalues are replaced by 0", "the spectrum is not clipped at 0 from below", node=f.node)
+    fs = [x for x in spectral.check(f) if x.kind == "S1"]
+    recon = [x for x in fs if isinstance(x.node, (ast.BinOp, ast.Call))]
+    if not recon:
+        rep.undecided("S1", f, "reconstruction", "no product with the eigenvector matrix found")
+    for fd in fs:
+        if fd.ok is True:
+            rep.holds("S1", f, fd.node, fd.text + " (eigh)", node=fd.node)
+        elif fd.ok is False:
+            rep.violation("S1", f, fd.node, fd.text, node=fd.node)
+        else:
+            rep.undecided("S1", f, fd.node, fd.text)
+    cl = spectral.clipping(f, w)
+    if not cl:
+        rep.violation("S1", f, "clipping", "the spectrum is not clipped at 0 from below (no construct replaces the negative eigenvalues by 0 between "
+                                           "the decomposition and the reconstruction)", node=f.node)
+    for ok, node, text in cl:
+        rep.check(ok, "S1", f, "clipping", "negative eigenvalues are replaced by 0 (%s)" % text,
+                  "`%s` does not replace exactly the negative eigenvalues by 0" % text, node=node)
 
 
 # ------------------------------------------------------------------------------ Q1
